@@ -54,6 +54,7 @@ var engines = map[string]EngineFn{
 // workerResult is what a worker process hands back.
 type workerResult struct {
 	Runs       int              `json:"runs"`
+	Evals      int              `json:"evals"`
 	Ops        int              `json:"ops"`
 	StoreCalls int              `json:"storeCalls"`
 	Stats      *statsJSON       `json:"stats"`
@@ -155,6 +156,11 @@ func WorkerMain(args []string) int {
 				continue
 			}
 			res.Runs++
+			if o.Evals > 0 {
+				res.Evals += o.Evals
+			} else {
+				res.Evals++
+			}
 			res.Ops += o.NOps
 			res.ByBackend[o.RF.Backend]++
 			res.ByEngine[job.Engine]++
@@ -341,6 +347,7 @@ func CheckMain(args []string) int {
 			return 2
 		}
 		total.Runs += wr.Runs
+		total.Evals += wr.Evals
 		total.Ops += wr.Ops
 		total.StoreCalls += wr.StoreCalls
 		total.Trouble = append(total.Trouble, wr.Trouble...)
@@ -474,7 +481,7 @@ func CheckMain(args []string) int {
 		fmt.Fprintln(os.Stderr, err)
 		return 2
 	}
-	fmt.Printf("runs=%d ops=%d storeCalls=%d distinct_nontrivial=%d modelStates=%d wall=%.1fs violations=%d collateral=%v\n", total.Runs, total.Ops, total.StoreCalls, len(hashes), len(states), wall, nViol, total.Collateral)
+	fmt.Printf("runs=%d evals=%d ops=%d storeCalls=%d distinct_nontrivial=%d modelStates=%d wall=%.1fs violations=%d collateral=%v\n", total.Runs, total.Evals, total.Ops, total.StoreCalls, len(hashes), len(states), wall, nViol, total.Collateral)
 	if exit == 0 && len(missing) > 0 && len(knownHit) == 0 {
 		fmt.Fprintf(os.Stderr, "required probes never hit: %v (the workload does not reach what the check claims; harness trouble)\n", missing)
 		return 2
@@ -570,7 +577,8 @@ func buildEvidence(prop, tier string, seed uint64, total *workerResult, agg *sta
 		samples = append(samples, "no run long enough to sample")
 	}
 	cov := map[string]interface{}{
-		"evaluations":         total.Runs,
+		"evaluations":         total.Evals,
+		"run_files":           total.Runs,
 		"distinct_nontrivial": distinct,
 		"rule":                info.Rule,
 		"samples":             samples,
